@@ -20,6 +20,9 @@ F = [
  ("C12", "panic:fmt.rs:655:a formatting trait implementation returned an error when the underlying stream d", "fixed", "3b15704", "Display for Label returned Err and Display for CharacterString unwrapped on non-UTF-8 bytes: Debug / to_string of a parsed packet with such a label panicked (corpus/C12/non-utf8-label-debug.json)"),
  ("C16", "c16:hash-instance", "fixed", "cfe8132", "InstanceInformation::hash fed its HashSets to the hasher in iteration order: equal values (same name, addresses, ports) hashed differently (corpus/C16/instance-hash-order.json)"),
  ("C19", "c19:long-attributes", "fixed", "c0749fa", "TXT::long_attributes compared `c as u8` with ';' / '=': U+013B and U+013D (and any char congruent mod 256) were taken for separators (input \"\u013b\"; corpus/C19/lookalike-semicolon.json)"),
+ ("C13", "c13:answer-wrong-name", "fixed", "2d8892c", "the record store keyed a radix trie by the reversed labels concatenated without separators: foo.bar/foobar, _my.local/_mysrv.local, a.b.local/ba.local answered for each other and byte-prefixes counted as subdomains (corpus/C13/trie-key-*.json)"),
+ ("C20", "c20:authoritative-missing", "fixed", "c503240", "add_cached_resource replaced an equal authoritative entry by an expiring cache entry: a locally registered record vanished from authoritative queries after the same record was received from the network (history AddAuth(1), AddCached(1,0,false); corpus/C20/auth-turned-into-cached.json)"),
+ ("C15", "c15:attributes-differ", "fixed", "b2c2a1f", "TXT::attributes mapped an empty character-string to the attribute \"\" -> None: an instance advertised without attributes (empty TXT = one empty string on the wire) was discovered with one attribute (corpus/C15/empty-txt-yields-empty-key.json)"),
  ("C01", "panic:simple-dns/src/dns/rdata/a.rs:22", "fixed", "80de3fc", "every typed RDATA parser and CharacterString::parse sliced without bounds checks (and the character-string bound was off by one): RDLENGTH shorter than the fixed fields, or an inner length overrunning RDLENGTH, panicked (corpus/C01/panic_simple_dns_src_dns_rdata_*.json, corpus/C10/*-overrun.json)"),
 ]
 out = {"_comment": "Genuine defects of balliegojr/simple-dns found by the checks. status=known: not repaired; keyed by the violation signature; reported as KNOWN-FINDING and tolerated so the search continues behind it. status=fixed: repaired by the named 'fix:' commit in /repo; suppresses nothing.",
